@@ -162,7 +162,13 @@ func execute(h history, k int, f *fault, res *result) (func(), func(*vsched.Exec
 					}
 					trusted = false // after a panic only liveness is asserted
 				case faultedMethod == "Close" || faultedMethod == "Renamed":
-					// errors of Close are ignored by contract, Renamed cannot fail
+					// errors of Close are ignored by contract, Renamed cannot
+					// fail: the request may succeed. But if the server chooses
+					// to report the failed Close of an otherwise successful
+					// request, it is "answered with Rlerror (the error's errno)".
+					if faultedMethod == "Close" && out.Expect.Class == "ok" && reply.Type == refcodec.Rlerror && code != f.errno {
+						add("close-error-reported-with-another-errno|"+req.Name(), fmt.Sprintf("%s: backend Close returned errno %d during %s, which would have succeeded otherwise; the reply is %v", h.name, f.errno, req, reply))
+					}
 				case faultedMethod == "WalkGetAttr" && f.errno == 38:
 				default:
 					if reply.Type != refcodec.Rlerror || code != f.errno {
@@ -306,7 +312,7 @@ func (e errnoErr) Error() string { return fmt.Sprintf("errno %d", uint32(e)) }
 
 func run(ctx *fw.Ctx, rep *fw.Report) {
 	rep.Rule = "corpus = 10 hand-written histories (failed multi-step walks, fid replacement, create-rebind, xattr fids, rename/unlink of referenced entries, directory rename with live descendants one and two levels below, attach names, open/readdir, node creation) + every history [attach; walk d; walk f; a; b] for all ordered pairs (a,b) of a 28-request structural alphabet (thorough: also all ordered triples over 12 of them); for EVERY backend call index k of each history and every fault in {EIO, errno 117, panic} the fault is injected at call k and the history continues, followed by follow-up requests on every bound fid, write operations in every directory and a second connection on the same paths; each case is one execution under the controlled scheduler (default schedule) so that an unreleased lock shows as a precise deadlock instead of a hang; oracle: faulted request answered Rlerror(errno) / EFAULT, every later request answered, after an error the replies agree with the reference model from the pre-fault state (Tclunk/Tremove unbound), live backend handles == needed handles, every handle closed exactly once at disconnect (after a panic instead: no later request uses a closed File or closes one twice)"
-	rep.Assumptions = append(rep.Assumptions, "errors of Close and Renamed need not be reported (File contract: Close errors are ignored, Renamed cannot fail)", "after a panic the model is no longer followed and leaks are not judged (DESIGN §4.0); asserted: every later request is answered, and none is served from a File that has been closed or closes one again", "injected errors happen at call entry: the failing call itself has no effect", "default schedule only: schedule-dependent fault handling is covered by C05/C16")
+	rep.Assumptions = append(rep.Assumptions, "errors of Close and Renamed need not be reported (File contract: Close errors are ignored, Renamed cannot fail); a Close error that IS reported must be reported with its own errno", "after a panic the model is no longer followed and leaks are not judged (DESIGN §4.0); asserted: every later request is answered, and none is served from a File that has been closed or closes one again", "injected errors happen at call entry: the failing call itself has no effect", "default schedule only: schedule-dependent fault handling is covered by C05/C16")
 	hs := corpus(ctx.Quick())
 	rep.Info["histories"] = len(hs)
 	idx := 0
